@@ -13,7 +13,8 @@ import subprocess
 import sys
 
 VERIF = os.path.dirname(os.path.dirname(os.path.abspath(__file__)))
-FIRST = json.load(open(os.path.join(VERIF, "tools", "seed_first_run_r2.json")))
+ROUND = sys.argv[2] if len(sys.argv) > 2 else "2"
+FIRST = json.load(open(os.path.join(VERIF, "tools", f"seed_first_run_r{ROUND}.json")))
 
 
 def main():
@@ -21,7 +22,7 @@ def main():
     head = subprocess.run(["git", "-C", "/repo", "rev-parse", "--short", "HEAD"], capture_output=True, text=True).stdout.strip()
     for src in sorted(glob.glob(os.path.join(root, "C??", "[0-9]"))):
         prop, k = src.split("/")[-2:]
-        name = f"{prop}-r2-{k}"
+        name = f"{prop}-r{ROUND}-{k}"
         vp = os.path.join(src, "verify.json")
         if not os.path.exists(vp):
             print(name, "not verified yet: skipped")
@@ -42,7 +43,7 @@ def main():
         needs = next((l.lstrip("-* ").strip() for l in lines[1:] if re.search(r"needs|manifest", l, re.I)), "")
         meta = {
             "property": prop,
-            "round": 2,
+            "round": int(ROUND),
             "origin": "independent sub-agent given only the property text and a scratch worktree of /repo (nothing from /verif)",
             "what": title,
             "needs_to_manifest": needs[:600] or title,
